@@ -389,6 +389,7 @@ class Region:
         self.text = ''
         self.changed = False          # repo text differs from the annotated baseline
         self.renamed = False
+        self.implicit = []            # properties that own the implicit obligations (default C17/C18)
         self.n_exec = 0
         self.n_changed_tokens = 0
         self.hash_repo = self.hash_out = ''
@@ -415,6 +416,7 @@ def build_region(args, body, features, rules_mod=None):
     r.file, r.kind, r.key = args[0], args[1], args[2]
     opts = dict(a.split('=', 1) for a in args[3:])
     r.props = [p for p in opts.get('props', '').split(',') if p]
+    r.implicit = [p for p in opts.get('implicit', '').split(',') if p]
     cm = opts.get('crate', crate_mod_of(r.file))
     src, rtoks, item = locate(r.file, r.kind, r.key, features)
     r.repo_line0 = rtoks[item.start].line
